@@ -201,6 +201,7 @@ zLUMemInit(fact_t fact, void *work, int_t lwork, int m, int n, int_t annz,
     doublecomplex   *ucol;
     int_t    *usub, *xusub;
     int_t    nzlmax, nzumax, nzlumax;
+    int_t    top1_mark = 0, used_mark = 0;
     
     iword     = sizeof(int);
     dword     = sizeof(doublecomplex);
@@ -244,6 +245,12 @@ zLUMemInit(fact_t fact, void *work, int_t lwork, int m, int n, int_t annz,
 	    xusub  = zuser_malloc((n+1) * iword, HEAD, Glu);
 	}
 
+	if ( Glu->MemModel == USER ) {
+	    /* Remember the stack before the four requests, so that a failed
+	       round can give back exactly what it obtained. */
+	    top1_mark = Glu->stack.top1;
+	    used_mark = Glu->stack.used;
+	}
 	lusup = (doublecomplex *) zexpand( &nzlumax, LUSUP, 0, 0, Glu );
 	ucol  = (doublecomplex *) zexpand( &nzumax, UCOL, 0, 0, Glu );
 	lsub  = (int_t *) zexpand( &nzlmax, LSUB, 0, 0, Glu );
@@ -256,8 +263,11 @@ zLUMemInit(fact_t fact, void *work, int_t lwork, int m, int n, int_t annz,
 		SUPERLU_FREE(lsub); 
 		SUPERLU_FREE(usub);
 	    } else {
-		zuser_free((nzlumax+nzumax)*dword+(nzlmax+nzumax)*iword,
-                            HEAD, Glu);
+		/* Some of the four requests may have failed, and the granted ones
+		   may include an alignment pad: restore the stack instead of
+		   releasing the sum of the requested sizes. */
+		Glu->stack.top1 = top1_mark;
+		Glu->stack.used = used_mark;
 	    }
 	    nzlumax /= 2;
 	    nzumax /= 2;
